@@ -1,4 +1,216 @@
-Require Import C13_GenTie.
-Theorem mediapipe_components_tie : List.map C13_Lookup.of_string Gen_C13.list_mediapipe_components = C13_Lookup.mediapipe_components.
+(* C13 - Normalisation removes exactly the variation it is meant to remove.
+   Theorems only (statement, [exact], Print Assumptions).  Numeric theorems are about the model instantiated with
+   Coq's real numbers ([R_ops]); the same Gallina terms run in binary64 ([F_ops]) in the correspondence check.
+   Vocabulary: [nondeg], [wf_body], [sim], [filled] (proofs/C13_NormalizeP.v, model/C13_Normalize.v);
+   [observed], [gmean], [gstd], [cfilled] (proofs/C13_DistP.v, model/C13_Normalize.v); [zrot_spec], [row_ok],
+   [row_nondegenerate], [coplanar], [sim3], [is_rotation], [rot3] (proofs/C13_Norm3dAlg.v, C13_Norm3dT.v, C13_Norm3dW.v). *)
+From Coq Require Import Reals List.
+Require Import Result Num C13_Normalize C13_Norm3d C13_Lookup Gen_C13.
+Require Import C13_RBase C13_NormalizeP C13_DistP C13_Norm3dP C13_Norm3dAlg C13_Norm3dT C13_Norm3dW C13_LookupP C13_Examples C13_GenTie.
+Import ListNotations.
+Open Scope R_scope.
+
+(* ---------------- Pose.normalize ---------------- *)
+(* after normalize() the mean distance between the two reference points is the requested scale (|sf|) and their
+   mean midpoint is the origin; hypothesis: some (frame, person) observes both reference points at distinct positions *)
+Theorem normalize_post : forall (D i j : nat) (sf : R) (b : list (list (pt R_ops))),
+  nondeg D i j b ->
+  mean_distance R_ops D i j (normalize R_ops D i j sf b) = Rabs sf /\
+  (forall d, (d < D)%nat -> nth d (center R_ops D i j (normalize R_ops D i j sf b)) 0 = 0).
+Proof. exact C13_NormalizeP.normalize_post. Qed.
+Print Assumptions normalize_post.
+
+(* translating (by any vector t) and uniformly scaling (by any a > 0) the input does not change the output *)
+Theorem normalize_invariant : forall (D i j : nat) (a : R) (t : list R) (b : list (list (pt R_ops))),
+  0 < a -> wf_body D b -> forall sf : R, nondeg D i j b ->
+  filled R_ops D (normalize R_ops D i j sf (sim a t b)) = filled R_ops D (normalize R_ops D i j sf b).
+Proof. exact C13_NormalizeP.normalize_invariant. Qed.
+Print Assumptions normalize_invariant.
+
+(* missing points stay missing, observed points stay observed *)
+Theorem normalize_mask_unchanged : forall (D i j : nat) (sf : R) (b : list (list (pt R_ops))),
+  filter (both R_ops i j) b <> [] ->
+  map (map pm) (normalize R_ops D i j sf b) = map (map pm) b.
+Proof. exact C13_NormalizeP.normalize_mask_unchanged. Qed.
+Print Assumptions normalize_mask_unchanged.
+
+Example normalize_hypotheses_satisfiable : nondeg 2 0 1 ex_body /\ wf_body 2 ex_body /\ 0 < 2.
+Proof. exact C13_Examples.normalize_hyp_ex. Qed.
+Print Assumptions normalize_hypotheses_satisfiable.
+
+(* ---------------- normalize_distribution / unnormalize_distribution ---------------- *)
+(* zero mean and unit deviation over the chosen axes: for every group of cells reduced together (any grouping
+   [key]; a leading block of axes is key i = i mod G) that has an observed cell and a non-zero deviation *)
+Theorem distribution_post : forall (key : nat -> nat) (G : nat), (forall i, (key i < G)%nat) ->
+  forall (cs : list (cell R_ops)) (g : nat), observed key cs g -> gstd R_ops key cs g <> 0 ->
+  let out := fst (normalize_distribution R_ops key G cs) in
+  gmean R_ops key out g = 0 /\ gstd R_ops key out g = 1.
+Proof. exact C13_DistP.distribution_post. Qed.
+Print Assumptions distribution_post.
+
+Theorem distribution_mask_unchanged : forall (key : nat -> nat) (G : nat), (forall i, (key i < G)%nat) ->
+  forall cs : list (cell R_ops), map cm (fst (normalize_distribution R_ops key G cs)) = map cm cs.
+Proof. exact C13_DistP.distribution_mask_unchanged. Qed.
+Print Assumptions distribution_mask_unchanged.
+
+(* unnormalize_distribution with the returned statistics restores the original *)
+Theorem unnormalize_inverse : forall (key : nat -> nat) (G : nat), (forall i, (key i < G)%nat) ->
+  forall cs : list (cell R_ops), (forall g, observed key cs g -> gstd R_ops key cs g <> 0) ->
+  let r := normalize_distribution R_ops key G cs in
+  cfilled R_ops (unnormalize_distribution R_ops key (fst (snd r)) (snd (snd r)) (fst r)) = cfilled R_ops cs.
+Proof. exact C13_DistP.unnormalize_inverse. Qed.
+Print Assumptions unnormalize_inverse.
+
+Example distribution_hypotheses_satisfiable :
+  (forall i, (ex_key i < 2)%nat) /\ observed ex_key ex_cells 0 /\ observed ex_key ex_cells 1 /\
+  (forall g, observed ex_key ex_cells g -> gstd R_ops ex_key ex_cells g <> 0).
+Proof. exact C13_Examples.distribution_hyp_ex. Qed.
+Print Assumptions distribution_hypotheses_satisfiable.
+
+(* ---------------- the 3-D plane / line normaliser ---------------- *)
+(* independently for every frame and person *)
+Theorem norm3d_rowwise : forall (zrot : R -> R -> R * R) (pl1 pl2 pl3 l1 l2 : nat) (size : R) (b : list (list (p3 R_ops))) (k : nat),
+  nth k (normalize3d R_ops zrot pl1 pl2 pl3 l1 l2 size b) [] = normalize_row R_ops zrot pl1 pl2 pl3 l1 l2 size (nth k b []).
+Proof. exact C13_Norm3dW.norm3d_rowwise. Qed.
+Print Assumptions norm3d_rowwise.
+
+(* PARTIAL.  Per frame and person: missing points stay missing, the first line point is at the origin, the line end
+   is on the negative y axis (x = 0, y < 0) at distance size, and - when the first line point lies in the reference
+   plane, without which "first line point at the origin" and "plane at z = 0" cannot both hold - the plane points are
+   at z = 0.  The gap: [row_ok] also demands that the plane normal is not along the x axis ([normal_not_x]), which the
+   property's non-degeneracy (observed, non-collinear plane points, distinct line points not perpendicular to the
+   plane) does not; see norm3d_post_normal_along_x_refuted. *)
+Theorem norm3d_post_partial : forall zrot : R -> R -> R * R, zrot_spec zrot ->
+  forall (pl1 pl2 pl3 l1 l2 : nat) (size : R) (b : list (list (p3 R_ops))) (k : nat), 0 < size ->
+  let r := nth k b [] in
+  let o := nth k (normalize3d R_ops zrot pl1 pl2 pl3 l1 l2 size b) [] in
+  row_ok pl1 pl2 pl3 l1 l2 r ->
+  map m3 o = map m3 r /\
+  c3 (get3 R_ops o l1) = v0 /\
+  vx (c3 (get3 R_ops o l2)) = 0 /\ vy (c3 (get3 R_ops o l2)) < 0 /\ norm R_ops (c3 (get3 R_ops o l2)) = size /\
+  (coplanar (c3 (get3 R_ops r pl1)) (c3 (get3 R_ops r pl2)) (c3 (get3 R_ops r pl3)) (c3 (get3 R_ops r l1)) ->
+   vz (c3 (get3 R_ops o pl1)) = 0 /\ vz (c3 (get3 R_ops o pl2)) = 0 /\ vz (c3 (get3 R_ops o pl3)) = 0).
+Proof. exact C13_Norm3dW.norm3d_post_partial. Qed.
+Print Assumptions norm3d_post_partial.
+
+(* REFUTED part of the post-condition: a non-degenerate hand whose plane is the y-z plane comes back entirely
+   missing and zero (the coded basis [1,0,0] x n vanishes), for every in-plane rotation oracle and every size *)
+Theorem norm3d_post_normal_along_x_refuted : forall (zrot : R -> R -> R * R) (size : R),
+  exists r : list (p3 R_ops), row_nondegenerate 0 1 2 0 1 r /\ length r = 4%nat /\
+    normalize_row R_ops zrot 0 1 2 0 1 size r = map (fun _ => @mkp3 R_ops true v0) r.
+Proof. exact C13_Norm3dW.norm3d_post_normal_along_x_refuted. Qed.
+Print Assumptions norm3d_post_normal_along_x_refuted.
+
+(* the output is unchanged by translating and uniformly (a > 0) scaling the input *)
+Theorem norm3d_translation_scale_invariant : forall zrot : R -> R -> R * R, zrot_spec zrot ->
+  forall (pl1 pl2 pl3 l1 l2 : nat) (size a : R) (t : vec3 R_ops) (b : list (list (p3 R_ops))), 0 < a ->
+  (forall r, In r b -> row_ok pl1 pl2 pl3 l1 l2 r) ->
+  normalize3d R_ops zrot pl1 pl2 pl3 l1 l2 size (map (sim3 a t) b) = normalize3d R_ops zrot pl1 pl2 pl3 l1 l2 size b.
+Proof. exact C13_Norm3dW.norm3d_translation_scale_invariant. Qed.
+Print Assumptions norm3d_translation_scale_invariant.
+
+(* REFUTED (DESIGN section 7, F12): the output is NOT unchanged by rotating the input - the change-of-basis vectors
+   have norm sqrt(1 - n_x^2), so out-of-plane coordinates are stretched by an orientation-dependent factor.
+   Witness: a flat hand with one off-plane point and its copy rotated about the y axis; both satisfy every
+   hypothesis of norm3d_post_partial. *)
+Theorem norm3d_rotation_invariant_refuted : forall zrot : R -> R -> R * R, zrot_spec zrot ->
+  exists (M : vec3 R_ops * vec3 R_ops * vec3 R_ops) (r : list (p3 R_ops)),
+    is_rotation M /\ row_ok 0 1 2 0 2 r /\ row_ok 0 1 2 0 2 (rot3 M r) /\
+    normalize_row R_ops zrot 0 1 2 0 2 1 (rot3 M r) <> normalize_row R_ops zrot 0 1 2 0 2 1 r.
+Proof. exact C13_Norm3dW.norm3d_rotation_invariant_refuted. Qed.
+Print Assumptions norm3d_rotation_invariant_refuted.
+
+Example norm3d_hypotheses_satisfiable :
+  zrot_spec (zrot_closed R_ops) /\ row_ok 0 1 2 0 2 W /\ (forall r, In r [W; W'] -> row_ok 0 1 2 0 2 r) /\
+  coplanar (c3 (get3 R_ops W 0)) (c3 (get3 R_ops W 1)) (c3 (get3 R_ops W 2)) (c3 (get3 R_ops W 0)) /\ nth 0 [W; W'] [] = W.
+Proof. exact C13_Examples.norm3d_hyp_ex. Qed.
+Print Assumptions norm3d_hypotheses_satisfiable.
+
+(* the rotation witness executed by the binary64 instance that the runner extracts: z = 1 for the flat hand,
+   1.66 < z < 1.67 for its rotated copy ([f_lo], [f_hi]) *)
+Example rotation_witness_float :
+  PrimFloat.eqb (zf Wf) PrimFloat.one = true /\ PrimFloat.ltb f_lo (zf Wf') = true /\ PrimFloat.ltb (zf Wf') f_hi = true.
+Proof. exact C13_Examples.rotation_witness_float. Qed.
+Print Assumptions rotation_witness_float.
+
+(* ---------------- reference lookup by format ---------------- *)
+Theorem pose_normalization_info_sound : forall (h : list hcomp) (i j : nat),
+  pose_normalization_info h = Ok (i, j) ->
+  exists f, detect (map hc_name h) = Ok f /\
+    nth_error (flat_points h) i = Some (fst (shoulders f)) /\ nth_error (flat_points h) j = Some (snd (shoulders f)).
+Proof. exact C13_LookupP.pose_normalization_info_sound. Qed.
+Print Assumptions pose_normalization_info_sound.
+
+Theorem get_point_index_first : forall (h : list hcomp) (c p : name) (idx k : nat),
+  get_point_index h c p idx = Ok k ->
+  exists pre x post, h = pre ++ x :: post /\ hc_name x = c /\ (forall y, In y pre -> hc_name y <> c) /\
+    exists j, index_of p (hc_points x) = Some j /\ k = (idx + length (flat_points pre) + j)%nat.
+Proof. exact C13_LookupP.get_point_index_first. Qed.
+Print Assumptions get_point_index_first.
+
+Theorem detect_first : forall (names : list name) (f : fmt), detect names = Ok f ->
+  exists pre n post, names = pre ++ n :: post /\ classify n = Some f /\ forall m, In m pre -> classify m = None.
+Proof. exact C13_LookupP.detect_first. Qed.
+Print Assumptions detect_first.
+
+Theorem component_3d_info_sound : forall (h : list hcomp) (cname : name) (plane : name * name * name) (line : name * name) (a b c d e : nat),
+  component_3d_info h cname plane line = Ok ((a, b, c), (d, e)) ->
+  let sub := flat_points (filter (fun x => name_eqb (hc_name x) cname) h) in
+  nth_error sub a = Some (cname, fst (fst plane)) /\ nth_error sub b = Some (cname, snd (fst plane)) /\
+  nth_error sub c = Some (cname, snd plane) /\ nth_error sub d = Some (cname, fst line) /\ nth_error sub e = Some (cname, snd line).
+Proof. exact C13_LookupP.component_3d_info_sound. Qed.
+Print Assumptions component_3d_info_sound.
+
+Example lookup_satisfiable : pose_normalization_info ex_header = Ok (4%nat, 3%nat).
+Proof. exact C13_LookupP.pose_normalization_info_ex. Qed.
+Print Assumptions lookup_satisfiable.
+
+(* ---------------- ties to the source (regenerated on every run) ---------------- *)
+Theorem mediapipe_components_tie : map of_string Gen_C13.list_mediapipe_components = C13_Lookup.mediapipe_components.
 Proof. exact C13_GenTie.mediapipe_components_tie. Qed.
 Print Assumptions mediapipe_components_tie.
+Theorem openpose_components_tie : map of_string Gen_C13.list_openpose_components = C13_Lookup.openpose_components.
+Proof. exact C13_GenTie.openpose_components_tie. Qed.
+Print Assumptions openpose_components_tie.
+Theorem openpose_135_components_tie : map of_string Gen_C13.list_openpose_135_components = C13_Lookup.openpose_135_components.
+Proof. exact C13_GenTie.openpose_135_components_tie. Qed.
+Print Assumptions openpose_135_components_tie.
+Theorem detect_order_tie : Gen_C13.detect_order = map (fun x => (fst x, fmt_name (snd x))) C13_Lookup.detect_order.
+Proof. exact C13_GenTie.detect_order_tie. Qed.
+Print Assumptions detect_order_tie.
+Theorem pose_shoulders_tie :
+  Gen_C13.pose_shoulders = map (fun f => (fmt_name f, shoulders_s f)) [Holistic; OpenPose135; OpenPose]
+  /\ forall f, shoulders f = (n2 (fst (shoulders_s f)), n2 (snd (shoulders_s f))).
+Proof. exact C13_GenTie.pose_shoulders_tie. Qed.
+Print Assumptions pose_shoulders_tie.
+Theorem hands_components_tie :
+  map (fun p => (fst p, Some (snd p))) Gen_C13.hands_components = map (fun f => (fmt_name f, hands_s f)) [Holistic; OpenPose]
+  /\ hands_s OpenPose135 = None /\ forall f, hands f = conv_hands (hands_s f).
+Proof. exact C13_GenTie.hands_components_tie. Qed.
+Print Assumptions hands_components_tie.
+(* statement sequences of the modelled functions, as the model was written from them *)
+Theorem lookup_code_tie :
+  Gen_C13.get_component_names_body = lit_get_component_names_body /\ Gen_C13.pose_normalization_info_body = lit_pose_normalization_info_body
+  /\ Gen_C13.normalize_component_3d_body = lit_normalize_component_3d_body /\ Gen_C13.normalize_hands_3d_body = lit_normalize_hands_3d_body
+  /\ Gen_C13.get_point_index_body = lit_get_point_index_body /\ Gen_C13.normalization_info_body = lit_normalization_info_body.
+Proof. exact C13_GenTie.lookup_code_tie. Qed.
+Print Assumptions lookup_code_tie.
+Theorem normalize_code_tie :
+  Gen_C13.pose_normalize_body = lit_pose_normalize_body /\ Gen_C13.distance_batch_body = lit_distance_batch_body
+  /\ Gen_C13.np_points_perspective_body = lit_np_points_perspective_body /\ Gen_C13.tf_points_perspective_body = lit_tf_points_perspective_body
+  /\ Gen_C13.points_dims = lit_points_dims.
+Proof. exact C13_GenTie.normalize_code_tie. Qed.
+Print Assumptions normalize_code_tie.
+Theorem distribution_code_tie :
+  Gen_C13.pose_normalize_distribution_body = lit_pose_normalize_distribution_body
+  /\ Gen_C13.pose_unnormalize_distribution_body = lit_pose_unnormalize_distribution_body
+  /\ Gen_C13.tf_mean_body = lit_tf_mean_body /\ Gen_C13.tf_variance_body = lit_tf_variance_body /\ Gen_C13.tf_std_body = lit_tf_std_body.
+Proof. exact C13_GenTie.distribution_code_tie. Qed.
+Print Assumptions distribution_code_tie.
+Theorem norm3d_code_tie :
+  Gen_C13.pn_init_body = lit_pn_init_body /\ Gen_C13.pn_rotate_to_normal_body = lit_pn_rotate_to_normal_body
+  /\ Gen_C13.pn_get_normal_body = lit_pn_get_normal_body /\ Gen_C13.pn_get_rotation_angle_body = lit_pn_get_rotation_angle_body
+  /\ Gen_C13.pn_rotate_body = lit_pn_rotate_body /\ Gen_C13.pn_scale_body = lit_pn_scale_body
+  /\ Gen_C13.pn_normalize_pose_body = lit_pn_normalize_pose_body /\ Gen_C13.pn_call_body = lit_pn_call_body.
+Proof. exact C13_GenTie.norm3d_code_tie. Qed.
+Print Assumptions norm3d_code_tie.
